@@ -3,7 +3,7 @@ from __future__ import annotations
 
 import ast
 
-from ..astx import un, NoValue
+from ..astx import un, NoValue, call_name
 from ..absint import Obj, Unk, PyFunc, ClassRef
 from ..core import rule, fixture_for, Unknown
 from ..symenv import make_interp, rep_algebra, mv_obj, Val, val_repr
@@ -25,7 +25,7 @@ INFO = {
                    "coefficients are sympified on construction. NOT decided: that sympy's simplifier returns zero only for "
                    "identically-zero expressions and that generated arithmetic is a ring homomorphism on sympy objects.",
     "decided": ["C02.call-pairing", "C06.filter", "C06.filter-sites", "C12.binding-order", "C12.sympify",
-                "C09.by-name-twin"],
+                "C09.by-name-twin", "C12.simp-func", "C12.issymbolic", "C08.emitted-source"],
     "not_decided": ["sympy.simplify / expand exactness", "generated arithmetic over sympy objects vs numbers"],
     "assumptions": ["the same generated function evaluated on numbers or on sympy expressions computes the same polynomial"],
 }
@@ -203,6 +203,62 @@ def sympify_rule(ctx):
 
 
 # --------------------------------------------------------------------------- which coefficients count as symbolic
+VALUE_PRESERVING = {"simplify", "expand", "factor", "cancel", "together", "collect", "trigsimp", "radsimp", "ratsimp", "expand_mul",
+                    "expand_trig", "expand_complex", "apart", "nsimplify", "sympify", "S", "Float", "Rational"}
+ASSUMING = {"posify": "replaces symbols by positive ones", "refine": "simplifies under assumptions",
+            "powdenest": "(x**a)**b -> x**(a*b) is valid only for positive x when forced", "powsimp": "combines powers under assumptions when forced",
+            "logcombine": "combines logarithms under assumptions when forced", "expand_log": "valid only for positive arguments when forced",
+            "expand_power_base": "valid only for non-negative bases when forced", "sqrtdenest": None, "N": "replaces exact numbers by floats",
+            "evalf": "replaces exact numbers by floats"}
+
+
+@rule("C12.simp-func", props=["C12"], min_instances=1, mutants=[
+    ("default simplification de-nests powers by force", ("algebra", "sympy.simplify(sympy.expand(v)), repr=False, compare=False)", "sympy.powdenest(sympy.simplify(sympy.expand(v)), force=True), repr=False, compare=False)")),
+    ("default simplification treats symbols as positive", ("algebra", "sympy.simplify(sympy.expand(v)), repr=False, compare=False)", "sympy.simplify(sympy.posify(sympy.expand(v))[0]), repr=False, compare=False)")),
+    ("default simplification rounds", ("algebra", "sympy.simplify(sympy.expand(v)), repr=False, compare=False)", "sympy.simplify(sympy.expand(v)).evalf(6), repr=False, compare=False)")),
+])
+def simp_func_default(ctx):
+    """The default simp_func, applied to every coefficient of every symbolic result, is a composition of sympy
+    transformations that are valid for ALL values of the symbols (no forced / assumption-introducing rewriting, no
+    rounding), and leaves non-sympy coefficients untouched."""
+    cls = ctx.cls("algebra.Algebra")
+    c = "algebra.Algebra.simp_func#default"
+    fld = next((st for st in cls.body if isinstance(st, ast.AnnAssign) and isinstance(st.target, ast.Name) and st.target.id == "simp_func"), None)
+    if fld is None:
+        raise Unknown(c, "Algebra has no simp_func field", cls)
+    default = fld.value
+    if isinstance(default, ast.Call):
+        default = next((kw.value for kw in default.keywords if kw.arg == "default"), None)
+    if isinstance(default, ast.Name) and ctx.repo.has(f"algebra.{default.id}"):
+        default = ctx.repo.lookup(f"algebra.{default.id}")
+    if isinstance(default, ast.Constant) and default.value is None:
+        ctx.ok(c, fld, default="None (no simplification)")
+        return
+    if not isinstance(default, (ast.Lambda, ast.FunctionDef)):
+        raise Unknown(c, f"unrecognised default {un(default) if default is not None else None!r}", fld)
+    problems = []
+    for n in ast.walk(default):
+        if not isinstance(n, ast.Call):
+            continue
+        name = (call_name(n) or un(n.func)).split(".")[-1]
+        forced = any(kw.arg == "force" and not (isinstance(kw.value, ast.Constant) and kw.value.value is False) for kw in n.keywords)
+        if name in ("isinstance", "hasattr", "getattr", "type", "callable"):
+            continue
+        if name in ASSUMING and (forced or name in ("posify", "refine", "N", "evalf")):
+            problems.append(f"{un(n)[:60]}: {ASSUMING[name]}")
+        elif forced:
+            problems.append(f"{un(n)[:60]}: force=True rewrites under assumptions the symbols need not satisfy")
+        elif name in VALUE_PRESERVING or name in ASSUMING:
+            continue
+        else:
+            raise Unknown(c, f"the default simp_func calls {un(n.func)!r}, whose validity for all symbol values is not known to the checker", n)
+    if problems:
+        ctx.violation(c, "the default simp_func is not value preserving: " + "; ".join(problems) + " - a symbolic result then "
+                         "differs from the numeric result for some values of the symbols (e.g. negative ones)", fld)
+    else:
+        ctx.ok(c, fld, default=un(default)[:120])
+
+
 @rule("C12.issymbolic", props=["C12", "C16"], min_instances=7, mutants=[
     ("rational polynomials no longer count as symbolic", ("multivector", "        symbol_classes = (Expr, RationalPolynomial)", "        symbol_classes = (Expr,)")),
     ("all() instead of any(): mixed coefficients are numeric", ("multivector", "        return any(isinstance(v, symbol_classes) for v in self.values())", "        return all(isinstance(v, symbol_classes) for v in self.values())")),
